@@ -1,24 +1,13 @@
 // ---------- whole-string semantics and the round-trip theorem ----------
-pub open spec fn opt_seq(e: Option<Mapping>) -> Seq<Mapping> { match e { Some(m) => seq![m], None => Seq::<Mapping>::empty() } }
-pub open spec fn pend(s: DS) -> Option<Mapping> { emit(s.pos, s.line, s.d) }
 
-pub open spec fn dec_run(s: DS, bytes: Seq<u8>) -> (DS, Seq<Mapping>)
-  decreases bytes.len()
-{
-  if bytes.len() == 0 { (s, Seq::<Mapping>::empty()) }
-  else { let (s2, e) = dec_byte(s, bytes[0]); let (s3, es) = dec_run(s2, bytes.skip(1)); (s3, opt_seq(e) + es) }
-}
-pub open spec fn dec_all(s: DS, bytes: Seq<u8>) -> Seq<Mapping> { let (s2, es) = dec_run(s, bytes); es + opt_seq(pend(s2)) }
 
-pub open spec fn enc_all(s: ES, ms: Seq<Mapping>) -> Seq<u8>
-  decreases ms.len()
-{ if ms.len() == 0 { Seq::<u8>::empty() } else { enc_bytes(s, ms[0]) + enc_all(enc_state(s, ms[0]), ms.skip(1)) } }
-pub open spec fn kept(s: ES, ms: Seq<Mapping>) -> Seq<Mapping>
-  decreases ms.len()
-{ if ms.len() == 0 { Seq::<Mapping>::empty() } else { (if dropped(s, ms[0]) { Seq::<Mapping>::empty() } else { seq![ms[0]] }) + kept(enc_state(s, ms[0]), ms.skip(1)) } }
-pub open spec fn wf(s: ES, ms: Seq<Mapping>) -> bool
-  decreases ms.len()
-{ ms.len() == 0 || (m_in_dom(ms[0]) && s.line <= ms[0].generated_line && wf(enc_state(s, ms[0]), ms.skip(1))) }
+
+
+
+
+
+
+
 
 
 // simulation relation between writer state and reader state
@@ -251,21 +240,8 @@ pub proof fn theorem_roundtrip(ms: Seq<Mapping>)
 }
 
 // ---------- the iterator protocol yields dec_all ----------
-pub open spec fn dec_iter(s: DS, bytes: Seq<u8>) -> Seq<Mapping>
-  decreases bytes.len(), s.pos
-{
-  let (e, s2, k) = dec_next(s, bytes);
-  match e {
-    None => Seq::<Mapping>::empty(),
-    Some(m) => if k <= bytes.len() && (k >= 1 || s2.pos < s.pos) { seq![m] + dec_iter(s2, bytes.skip(k as int)) } else { seq![m] },
-  }
-}
-pub proof fn lemma_next_bounds(s: DS, bytes: Seq<u8>)
-  ensures ({ let (e, s2, k) = dec_next(s, bytes); k <= bytes.len() && (e is Some ==> (k >= 1 || (s2.pos == 0 && s.pos > 0))) })
-  decreases bytes.len()
-{
-  if bytes.len() > 0 { let (s2, e) = dec_byte(s, bytes[0]); if e is None { lemma_next_bounds(s2, bytes.skip(1)); } }
-}
+
+
 pub proof fn lemma_iter_is_all(s: DS, bytes: Seq<u8>)
   ensures dec_iter(s, bytes) == dec_all(s, bytes)
   decreases bytes.len(), s.pos
